@@ -177,4 +177,25 @@ CHECKS = {
                       "reference, 64 / 576 references) with requests in flight, blocked getmany(), mid-rebalance second member, "
                       "fault fates on every request"),
                 note=SIM_NOTE + "; B_stop = 4 x (request + session + rebalance timeout) + 40 x backoff, runs continued to 10 x B"),
+    "C07": dict(ready=True, engine="simcluster", level="fault_enumeration", design_ref="DESIGN.md §6 C07",
+                technique="runtime monitoring: atomicity checker (API outcomes vs. an independent read_committed reading of the "
+                          "simulated logs and the group's committed offsets) + wire-order checker over the coordinator's / "
+                          "leaders' request logs and client-boundary send/return times, on a fault-injecting simulated "
+                          "transaction coordinator; replacement, zombie and kill scenarios",
+                text=("programs of 1-6 transactions (sends, bursts of concurrent sends, send_offsets_to_transaction, commit / "
+                      "abort / commit-else-abort / context manager) x retriable fates on every transactional request type and "
+                      "FindCoordinator, coordinator moves, delayed markers, scripted TOPIC/GROUP authorization errors at the "
+                      "n-th request, a second instance with the same transactional id starting mid-transaction (zombie keeps "
+                      "calling) and kill -9 mid-transaction; 960 histories quick, 24k thorough"),
+                note=SIM_NOTE + "; pre-KIP-890 leader semantics (pid/epoch/sequence checks only); B_txn = 4 x request_timeout + 60 x backoff"),
+    "C16": dict(ready=True, engine="simcluster", level="exploration", design_ref="DESIGN.md §6 C16",
+                technique="runtime monitoring: lock-step reference model of the documented transactional API run against every "
+                          "call's outcome, with a wire-silence observer on the simulated cluster after illegal calls and after "
+                          "fatal errors",
+                text=("every call sequence of length <= 3 (thorough <= 4) over 8 calls without fault, every sequence of length "
+                      "<= 2 (thorough <= 3) x 24 single scripted faults (abortable / fatal / retriable / lost reply at each "
+                      "transactional request type and Produce), transaction prefixes that reach the faulted request followed by "
+                      "every short suffix, and sampled sequences of length 4-6 x a random fault"),
+                note=SIM_NOTE + "; reference model written from the documented API; a fault served during a call makes that one "
+                     "call's outcome model-dependent"),
 }
